@@ -4,7 +4,7 @@ C05 / C10 — the TIME MODEL (DESIGN §5): programs of routine scripts running o
 
 * `stepNrt`  — one iteration of `ClockScheduler.run` (`main.process()`): pop the pending task
                with the least time in SECONDS (ties: insertion order) and wake it;
-* `stepRt`   — one move of the environment schedule in real-time mode: physical time advances
+* `RtS.step` — one move of the environment schedule in real-time mode: physical time advances
                by an arbitrary amount, or the thread of clock `c` looks at ITS queue (least time
                in BEATS of that clock, ties: insertion order) and wakes the head iff it is due
                (`now ≥ beats2secs(head)`), however late that is.
@@ -105,7 +105,6 @@ structure S where
   pend : List Entry := []
   nextSeq : Nat := 0
   mainSecs : Rat := 0            -- logical time of the task being / last executed
-  now : Rat := 0                 -- RT: physical time
   conds : Nat → Cond := fun _ => {}
   draws : Nat → Nat := fun _ => 0      -- per generator: number of values drawn so far
   trace : List Ev := []          -- newest first
@@ -281,16 +280,22 @@ inductive Move where
   | run (c : Clk)
 deriving Repr, DecidableEq
 
-def S.stepRt (s : S) : Move → S
-  | .advance d => if 0 ≤ d then { s with now := s.now + d } else s
-  | .run c =>
-    match s.chooseRt c with
-    | none => s
-    | some e => if s.secsOf e ≤ s.now then s.exec e else s
+/-- Real-time machine: the shared state plus the physical time (`main.elapsed_time()`), which
+    nothing in the shared state ever reads. -/
+structure RtS where
+  s : S
+  now : Rat
 
-def S.runRt (s : S) : List Move → S
-  | [] => s
-  | m :: ms => (s.stepRt m).runRt ms
+def RtS.step (r : RtS) : Move → RtS
+  | .advance d => if 0 ≤ d then { r with now := r.now + d } else r
+  | .run c =>
+    match r.s.chooseRt c with
+    | none => r
+    | some e => if r.s.secsOf e ≤ r.now then { r with s := r.s.exec e } else r
+
+def RtS.run (r : RtS) : List Move → RtS
+  | [] => r
+  | m :: ms => (r.step m).run ms
 
 /-- Initial state: tempo clocks created at `start` with the given tempi; routine 0 is created by
     the main thread and played on `c0` at `start`. -/
@@ -298,7 +303,7 @@ def S.init (prog : Nat → List Act) (tempi : Nat → Rat) (start : Rat) (c0 : C
   let s : S :=
     { rts := fun i => { script := prog i }
       tempi := fun i => { tempo := tempi i, beatDur := 1 / tempi i, baseBeats := 0, baseSecs := start }
-      mainSecs := start, now := start }
+      mainSecs := start }
   let s := s.setRt 0 { s.rts 0 with created := true, state := .suspended, startBeats := s.beatsNow c0 }
   s.schedNow c0 0
 
